@@ -10,10 +10,11 @@ EXTENDS Gossip, IOUtils, TLCExt
 
 Rec == ndJsonDeserialize(IOEnv.TRACE)
 
-VARIABLE l
-tvars == <<vars, hist, l>>
+VARIABLES l,
+          evid   \* evid[n][x]: how many times the heartbeat n stores for x increased (the only events that feed the detector)
+tvars == <<vars, hist, l, evid>>
 
-TraceInit == Init /\ l = 1
+TraceInit == Init /\ l = 1 /\ evid = [n \in Node |-> [x \in Node |-> 0]]
 
 Has2(e, f) == f \in DOMAIN e
 LastStep == hist'[Len(hist')]
@@ -23,7 +24,7 @@ PostOk(e) == Has2(e, "post") => ViewOf(st'[e.n], e.n, clock') = e.post
 OutOk(e) == IF Has2(e, "out") THEN Has2(LastStep, "out") /\ LastStep.out = e.out
             ELSE ~Has2(LastStep, "out")
 
-TraceNext ==
+TraceStep ==
   /\ l <= Len(Rec)
   /\ l' = l + 1
   /\ LET e == Rec[l] IN
@@ -44,8 +45,17 @@ TraceNext ==
        [] e.a = "FairEnd"   -> UNCHANGED vars /\ hist' = Append(hist, [a |-> "FairEnd", n |-> ""])
        [] OTHER -> FALSE
 
+HbOf(s, x) == IF x \in DOMAIN s.ns THEN s.ns[x].hb ELSE 0
+TraceNext ==
+  /\ TraceStep
+  /\ evid' = IF Rec[l].a = "Reset" THEN [n \in Node |-> [x \in Node |-> 0]]
+             ELSE [n \in Node |-> [x \in Node |-> evid[n][x] + (IF HbOf(st'[n], x) > HbOf(st[n], x) THEN 1 ELSE 0)]]
+\* C18 (never live by catch-up alone) / C11 at cluster level: only increases of the stored heartbeat feed
+\* the detector, and a member needs two of them before it can be live
+C18_LiveNeedsHeartbeats == \A n \in Node : \A x \in st[n].live : evid[n][x] >= 2
+
 TraceSpec == TraceInit /\ [][TraceNext]_tvars
-TraceView == <<vars, l>>
+TraceView == <<vars, l, evid>>
 
 TraceAccepted ==
   LET d == TLCGet("stats").diameter IN
